@@ -185,13 +185,13 @@ def run(ctx):
                              site_of(b, bb))
     r2.ok("scan", "%d unwrap-on-chars sites and %d byte-slicing sites on user strings examined in the event code" % (n_sites, n_slice))
     # ASCII filter in front of the parser for user auto-correct values
-    sc = [k for k, f in prog.fns.items() if f.get("kind") != "Closure" and (f.get("impl") or {}).get("self") == R["sug_ty"]
-          and f.get("output", "").startswith("std::option::Option<&") and R["user_autocorrect"] in repr(prog.body(k).expr_local(0))]
+    lookups = phonetic.autocorrect_lookup(prog)
+    sc = [k for (k, b_, e_) in lookups]
     if len(sc) != 1:
         r2.undecidable("ascii-filter", "auto-correct look-up not found uniquely: %s" % sc)
     else:
-        scb = prog.body(sc[0])
-        ret = strip_refs(scb.expr_local(0))
+        scb = lookups[0][1]
+        ret = strip_refs(lookups[0][2])
         user_branch = ret.a[1][0] if ret.k == "call" and ret.a[0].endswith("::or_else") else ret
         filt = None
         for x in user_branch.walk():
